@@ -212,7 +212,6 @@ var resetFlags = map[string]map[string][]string{
 // unchanged duties until the scope ends.
 func checkResetRefetch(c *core.Ctx, typ string, f *ssa.Function) {
 	const rule = "C16-R4"
-	a := c.E.Analyze(f)
 	var selBlock *ssa.BasicBlock
 	for _, b := range f.Blocks {
 		for _, in := range b.Instrs {
@@ -227,15 +226,15 @@ func checkResetRefetch(c *core.Ctx, typ string, f *ssa.Function) {
 	}
 	n := 0
 	for _, s := range callsIn(f, "ssv/operator/duties/dutystore.*.Reset*") {
-		if s.Fn != f {
-			continue
+		if s.Fn != f && len(s.Via) == 0 {
+			continue // inside a closure of HandleDuties: none today
 		}
-		facts := a.FactsAt(s.Instr)
-		if isTickerCase(facts) {
+		facts := s.Facts(c)
+		if facts == nil || isTickerCase(facts) {
 			continue // expiry of a finished scope / re-fetch handled by processFetching in the same tick (C16-R2)
 		}
 		args := s.Instr.Common().Args
-		arg := a.D.D(args[len(args)-1]).String()
+		arg := s.Arg(c, len(args)-1).String()
 		scope := "current"
 		switch {
 		case reScopeNext.MatchString(arg):
@@ -280,7 +279,7 @@ func checkResetRefetch(c *core.Ctx, typ string, f *ssa.Function) {
 				okBefore = true
 			}
 		}
-		ok := okBefore || mustPassThrough(s.Instr.(ssa.Instruction), isFlag, selBlock)
+		ok := okBefore || mustPassThroughVia(s, isFlag, selBlock)
 		c.Decide(ok, rule, construct, c.P.Pos(s.Instr.Pos()), "every path to the next select sets "+strings.Join(flags, "/"),
 			fmt.Sprintf("the stored duties of the %s scope (%s) are wiped in a reorg / indices-change case, but not every path to the next select sets %s: those duties are not fetched again and are not dispatched until the scope ends", scope, clip(arg), strings.Join(flags, " or ")))
 	}
@@ -290,6 +289,75 @@ func checkResetRefetch(c *core.Ctx, typ string, f *ssa.Function) {
 
 var reScopeNext = regexp.MustCompile(` \+ 1(:\w+)?\)$`)
 var reScopePast = regexp.MustCompile(` - 1(:\w+)?\)$`)
+
+// mustPassThroughVia: as mustPassThrough, but when the site lies in a private helper and a
+// path leaves the helper without meeting the target, the search continues after the helper
+// call in its caller (up the chain the site was found through).
+func mustPassThroughVia(s callSite, target func(ssa.Instruction) bool, stop *ssa.BasicBlock) bool {
+	from := s.Instr.(ssa.Instruction)
+	for i := len(s.Via); ; i-- {
+		r := passThrough(from, target, stop)
+		if r == ptYes {
+			return true
+		}
+		if r == ptNo || i == 0 {
+			return false
+		}
+		from = s.Via[i-1].Site.(ssa.Instruction) // ptReturned: continue after the helper call
+	}
+}
+
+type ptResult int
+
+const (
+	ptYes      ptResult = iota // target on every path
+	ptNo                       // a path reaches stop (or a dead end) without the target
+	ptReturned                 // otherwise fine, but some path returns from the function first
+)
+
+func passThrough(from ssa.Instruction, target func(ssa.Instruction) bool, stop *ssa.BasicBlock) ptResult {
+	b := from.Block()
+	idx := -1
+	for i, in := range b.Instrs {
+		if in == from {
+			idx = i
+		}
+	}
+	visited := map[*ssa.BasicBlock]bool{}
+	res := ptYes
+	var walk func(b *ssa.BasicBlock, start int) bool
+	walk = func(b *ssa.BasicBlock, start int) bool {
+		for i := start; i < len(b.Instrs); i++ {
+			if target(b.Instrs[i]) {
+				return true
+			}
+			if _, ret := b.Instrs[i].(*ssa.Return); ret {
+				res = ptReturned
+				return true
+			}
+		}
+		if len(b.Succs) == 0 {
+			return false
+		}
+		for _, s := range b.Succs {
+			if s == stop {
+				return false
+			}
+			if visited[s] {
+				continue
+			}
+			visited[s] = true
+			if !walk(s, 0) {
+				return false
+			}
+		}
+		return true
+	}
+	if !walk(b, idx+1) {
+		return ptNo
+	}
+	return res
+}
 
 // mustPassThrough: every path from just after `from` reaches an instruction
 // satisfying target before it reaches block stop or leaves the function.
